@@ -2,9 +2,51 @@
 import arrayprop, directed
 
 
+def through_symlink(v, cov):
+    """frame condition outside the projected state: a symbolic link standing where a recorded file was (pointing to a file outside
+    the array, or to another recorded file) is never written through: whatever check, fix, scrub and diff do with the name, the
+    file the link points to keeps its bytes and its time stamp"""
+    import os
+    import vlib, arr
+    n = 0
+    for variant in ("outside", "inside"):
+        a = arr.Array(arr.Conf(nd=2, np=1, copies=2), seed=vlib.seed() * 10 + len(variant))
+        try:
+            a.write_file(0, "A", [1, 2], mtime=11)
+            a.write_file(0, "K", [5], mtime=12)
+            a.write_file(1, "B", [3, 4], mtime=13)
+            if a.run("sync").rc != 0:
+                raise vlib.ToolFailure("sync failed in the symlink frame scenario")
+            if variant == "outside":
+                target = os.path.join(a.root, "outside.bin")
+                with open(target, "wb") as f:
+                    f.write(b"not a part of the array\n" * 150)
+                os.utime(target, ns=(1500000000 * 10**9 + 7, 1500000000 * 10**9 + 7))
+            else:
+                target = a.path(1, "B")
+
+            def snap():
+                st = os.lstat(target)
+                return (open(target, "rb").read(), st.st_mtime_ns, st.st_size)
+            before = snap()
+            os.remove(a.path(0, "A"))
+            os.symlink(target, a.path(0, "A"))
+            for cmd in (("check",), ("diff",), ("fix",), ("scrub", "-p", "full"), ("fix", "-m"), ("fix", "-f", "A"), ("check", "-a")):
+                a.run(*cmd)
+                n += 1
+                if not os.path.exists(target) or snap() != before:
+                    v.violation("'%s' wrote through a symbolic link standing where the recorded file d0/A was: the file it points to "
+                                "(%s the array) was modified" % (" ".join(cmd), variant),
+                                replay_obj={"kind": "symlink-frame", "variant": variant, "command": list(cmd)}, signature="written-through-symlink")
+                    break
+        finally:
+            a.destroy()
+    cov["frame_through_symlink_commands"] = n
+
+
 def run(tier):
     return arrayprop.standard_run(
-        "C12", tier, profiles=["mixed", "damage", "filters", "ranges", "syncheavy", "filters"], nquick=36, nthorough=300, sim=False,
+        "C12", tier, profiles=["mixed", "damage", "filters", "ranges", "syncheavy", "filters"], nquick=36, nthorough=300, sim=False, extra=through_symlink,
         directed_jobs=lambda s0: [(s0 + k, dict(nd=2, np=2, copies=2), "directed-fixframes", 0, directed.fix_frames) for k in (1, 2, 3)],
         rule="before and after every real command byte-level digests of the data trees (names, bytes, ns mtimes, links), of "
              "every parity stream, of every content copy and the list of all other files are recorded; TLC checks the frame "
